@@ -9,13 +9,20 @@ mutual-exclusion semantics, blocking visible).
 Oracles
 * linearizability: the outcome (every call's return value + final balances/debt/state/state-change
   notifications of every store) must be one the *implementation itself* produces when the same
-  calls run sequentially in some order consistent with each thread's program order;
+  calls run sequentially in some order consistent with each thread's program order. Every call the
+  harness itself makes into the implementation (start-state setup, reference runs, end-state getters)
+  is guarded: an exception is the value ("raised", class) of that call, a call that can never return
+  or a failing setup call is a violation of its own (`call-hangs-sequentially`, `call-fails-sequentially`);
 * the statement's explicit clauses, judged from the public call history only (independent of the
   implementation's sequential behaviour): balances never negative (at every scheduling point and
   as returned by any getter), debt within [0, max_debt], the sum of successful spends never
   exceeds what was available (start wealth + regenerated + debt taken), no deadlock, no livelock,
-  no escaping exception (in the X family the user's own callback raises: there the exception is
+  no escaping exception (in the X / E families the user's own callback raises: there the exception is
   the call's expected result and must leave no lock behind).
+Families with a state-change callback (G recording, X / E raising) contain every transfer || transfer pair (same
+and opposite direction) under both creation orders of the two stores, with amounts that take the donor (X: also the
+receiver) across a metabolic-state threshold - a notification issued anywhere inside the two-lock section is then
+exercised with either store holding the lower lock rank.
 Not asserted (counted and noted instead): getters are lock-free single reads, so a value *read*
 concurrently with a multi-write mutator may be an intermediate one; `apply_debt_interest` is not
 one of the operations the statement lists and is unsynchronised in the code.
@@ -716,6 +723,8 @@ def run(ctx):
     ctx.sample({"harness": "S8-transfer-vs-two-consumes", "threads": H["S8-transfer-vs-two-consumes"][1]})
     ctx.sample({"harness": "G:atp-topup-debt|xfer-in-atp", "stores": G_CFG, "setup": G_SETUP,
                 "threads": H["G:atp-topup-debt|xfer-in-atp"][1]})
+    ctx.sample({"harness": "G:xfer-in-atp|xfer-in-gtp@r", "stores": G_CFG, "setup": G_SETUP,
+                "threads": H["G:xfer-in-atp|xfer-in-gtp@r"][1], "creation_order": REVERSED})
     ctx.sample({"harness": "R2-transfer-ring-ranks-reversed", "threads": _RING[1],
                 "creation_order": OPTS["R2-transfer-ring-ranks-reversed"]["order"]})
     ctx.sample(per)
